@@ -248,8 +248,12 @@ package cache
 //@
 //@ # ---- C04 / C03: a background refresh replaces an entry ONLY by compare-and-swap against the entry it claimed
 //@ # (never by a plain Set/Add), and the replacement inherits the claimed entry's CD partition and ECS scope
+//@ # a replacement inherits ONLY the key's partition (CD, scope) and the refresh's delegation cut from the entry it
+//@ # replaces; it keeps its OWN question (the question the refreshed response answers), so a refresh that answered a
+//@ # different question can never be served under the victim's question: the frame forbids any other write
 //@ func (*Store).ReplaceIfCurrent$1
 //@   requires expected != nil
+//@   modifies entry.cd, entry.scope, entry.cutUntil, entry.cutKey
 //@   ensures entry == nil ==> result == nil
 //@   ensures entry != nil ==> result == entry && entry.cd == expected.cd && entry.scope == expected.scope && entry.cutUntil == cutUntil && entry.cutKey == cutKey
 //@
@@ -285,6 +289,10 @@ package cache
 //@   note C02: shared denial state (aggressive proofs, NXDOMAIN cuts) is admitted only for a locally validated, aggressive-eligible proof, for a request without ECS scope, without CD on request or response, and not from a request tree that bypasses shared denial
 //@   assert at call middleware.ValidatedNegativeProofForResponse#1: !prefixValid(w.clientScope) && !w.requestHasECS && !w.requestTreeBypassesSharedDenial && !w.requestCD && !res.CheckingDisabled && arg1 == res
 //@   assert at call (*middleware/cache.Store).RecordDenialProof#1: calls("middleware.ValidatedNegativeProofForResponse") == 1 && lastret("middleware.ValidatedNegativeProofForResponse", 1) && lastret("middleware.ValidatedNegativeProofForResponse").Aggressive && arg1 == lastret("middleware.ValidatedNegativeProofForResponse").Proof && arg1 != nil && arg2 == lastret("middleware.ValidatedNegativeProofForResponse").Zone
+//@   # C13: a useful answer resets the failure history of exactly the question it answers, in the response's CD partition,
+//@   # for the CLIENT's ECS audience (the audience failures are recorded and looked up under) - never the answer's
+//@   # clamped storage scope - and only then is the reply passed on, once
+//@   assert at call (*middleware/cache.Store).resetMatchingFailures#1: arg1 == q && arg2 == res.CheckingDisabled && arg3 == w.clientScope
 //@   assert at call (*middleware/cache.Store).RecordNXDomainCut#1: calls("(*middleware/cache.Store).RecordDenialProof") == 1 && arg1 == lastret("middleware.ValidatedNegativeProofForResponse").Proof && arg2 == lastret("middleware.ValidatedNegativeProofForResponse").Subject && arg3 == lastret("middleware.ValidatedNegativeProofForResponse").Zone
 //@
 //@ # ---- C07: only records owned by the question name (plus DNAMEs and their signatures) are offered to the cache
@@ -563,3 +571,40 @@ package cache
 //@   assert at call (*middleware/cache.denialProofCache).lookupWithMeta#1: !s.sharedDenialDisabled && !s.rfc8198Disabled && arg1 == req
 //@   assert at return#1: !result4
 //@   assert at return#2: !result4
+//@
+//@ # ---- C13 / C03: the ancestor walk of the failure cache moves from a zone to its parent at a LABEL boundary as the DNS
+//@ # library parses it (escape-aware: `\.` inside a label is not a boundary), so `a\.b.example.` is never treated as a
+//@ # descendant of `b.example.`; the walk starts from the canonical form of the name and ends at the root
+//@ func walkFailureZones
+//@   abstract
+//@   nosafety all pre
+//@   assert at call github.com/miekg/dns.CanonicalName#1: arg0 == name
+//@   assert at call github.com/miekg/dns.NextLabel#1: arg1 == 0
+//@   assert at call param middleware/cache.walkFailureZones.visit#1: calls("github.com/miekg/dns.CanonicalName") == 1
+//@
+//@ # ---- C04: the cache-contained alias chase. Whenever records of an internal sub-query are merged into the outer reply
+//@ # (searchAdditionalAnswer) the outer request inherits that sub-query's lifetime bound (lineage.inherit) before the
+//@ # next hop is looked up and before the reply is returned - whatever the merged section was (answer records or an
+//@ # authority-only NODATA/denial)
+//@ func (*Cache).additionalAnswer
+//@   abstract
+//@   nosafety all pre
+//@   loop 2 invariant calls("middleware/cache.searchAdditionalAnswer") <= calls("(*middleware/cache.subQueryLineage).inherit")
+//@   assert at return#6: calls("middleware/cache.searchAdditionalAnswer") <= calls("(*middleware/cache.subQueryLineage).inherit")
+//@   assert at return#7: calls("middleware/cache.searchAdditionalAnswer") <= calls("(*middleware/cache.subQueryLineage).inherit")
+//@   assert at return#8: calls("middleware/cache.searchAdditionalAnswer") <= calls("(*middleware/cache.subQueryLineage).inherit")
+//@   assert at return#9: calls("middleware/cache.searchAdditionalAnswer") <= calls("(*middleware/cache.subQueryLineage).inherit")
+//@   assert at return#10: calls("middleware/cache.searchAdditionalAnswer") <= calls("(*middleware/cache.subQueryLineage).inherit")
+//@   assert at call middleware/cache.searchAdditionalAnswer#1: arg0 == msg && arg1 == lastret("(*middleware/cache.Cache).internalExchange")
+//@
+//@ # ---- C04 / C08: every denial-proof entry admitted to the shared aggressive cache - the zone's SOA entry AND each
+//@ # NSEC/NSEC3 RRset entry - gets its expiry from denialProofExpiry called with the delegation lease (cutUntil) of the
+//@ # response it was learned from and the configured maximum, and is built with exactly that expiry: no entry outlives
+//@ # the lease even when a later proof replaces the shared SOA entry
+//@ func (*denialProofCache).extract
+//@   abstract
+//@   nosafety all pre
+//@   assert at call middleware/cache.denialProofExpiry#1: arg0 == now && arg1 == c.maxTTL && arg2 == entry_cutUntil
+//@   assert at call middleware/cache.denialProofExpiry#2: arg0 == now && arg1 == c.maxTTL && arg2 == entry_cutUntil
+//@   assert at call middleware/cache.newDenialProofEntry#1: arg2 == now && arg3 == lastret("middleware/cache.denialProofExpiry#1") && lastret("middleware/cache.denialProofExpiry#1", 1)
+//@   assert at call middleware/cache.newDenialProofEntry#2: arg2 == now && arg3 == lastret("middleware/cache.denialProofExpiry#2") && lastret("middleware/cache.denialProofExpiry#2", 1)
